@@ -109,3 +109,16 @@ def regenerate_pyfront(res):
         return False
     common.write_if_changed(os.path.join(common.COQ, "Gen", "PyFront.v"), text)
     return True
+
+
+def regenerate_wblocks(res):
+    """T11: control skeleton of digital_rf_write_blocks_hdf5 -> coq/Gen/WBlocksGen.v"""
+    import c2gallina
+    import wblocks2gallina
+    try:
+        text = wblocks2gallina.translate(common.REPO)
+    except c2gallina.Unsupported as e:
+        res.broken.append("translator T11 (wblocks2gallina) rejects the current digital_rf_write_blocks_hdf5: %s" % e)
+        return False
+    common.write_if_changed(os.path.join(common.COQ, "Gen", "WBlocksGen.v"), text)
+    return True
